@@ -76,6 +76,12 @@ fn pattern_bit(p: usize, i: usize) -> bool {
             let b = (0x70 + (i / 8)) as u8;
             (b >> (7 - i % 8)) & 1 == 1
         }
+        4 => {
+            // bytes 0x9e, 0x9f, 0xa0, 0xa1, ...: the end of the C1 controls and the start of the Latin-1 letters, which
+            // a text column must not show as characters of their own
+            let b = (0x9e + (i / 8)) as u8;
+            (b >> (7 - i % 8)) & 1 == 1
+        }
         _ => {
             let x = (i as u32 + 1).wrapping_mul(2654435761);
             ((x >> 13) ^ (x >> 21) ^ (x >> 29)) & 1 == 1
@@ -846,7 +852,7 @@ pub fn run(ctx: &Ctx) -> Report {
     let lens = lengths(ctx.thorough);
     let mut singles = vec![];
     for l in &lens {
-        for p in 0..4 {
+        for p in 0..5 {
             for style in 0..4 {
                 singles.push((*l, p, style));
             }
